@@ -74,6 +74,7 @@ fn main() {
         "C04" => { vh::c04::check(&rep); rep.finish(vh::c04::RULE, vh::c04::ASSUME, vh::c04::SITUATIONS) }
         "C15" => { vh::c15::check(&rep); rep.finish(vh::c15::RULE, vh::c15::ASSUME, vh::c15::SITUATIONS) }
         "C06" => { vh::c06::check(&rep); rep.finish(vh::c06::RULE, vh::c06::ASSUME, vh::c06::SITUATIONS) }
+        "C05" => { vh::c05::check(&rep); rep.finish(vh::c05::RULE, vh::c05::ASSUME, vh::c05::SITUATIONS) }
         _ => { eprintln!("unknown property {}", id); 2 }
     };
     std::process::exit(code);
